@@ -208,10 +208,13 @@ def trusted_scan(text):
     found = []
     for mm in re.finditer(r'assume_specification\s*(?:<[^\[]*>)?\s*\[([^\]]+)\]', m, re.S):
         found.append('assume_specification[%s]' % re.sub(r'\s+', ' ', mm.group(1).strip()))
-    for mm in re.finditer(r'external_type_specification\]\s*pub struct \w+\((\w+)\)', m):
+    for mm in re.finditer(r'external_type_specification\]\s*(?:#\[[^\]]*\]\s*)*pub struct \w+(?:<[^>]*>)?\((\w+)', m):
         found.append('external_type_specification %s' % mm.group(1))
     for mm in re.finditer(r'external_body\]\s*(?:#\[[^\]]*\]\s*)*(?:pub\s+)?(?:(?:proof|exec|spec)\s+)?fn\s+(\w+)', m):
         found.append('external_body fn %s' % mm.group(1))
+    for mm in re.finditer(r'external_body\]\s*(?:#\[[^\]]*\]\s*)*pub\s+struct\s+(\w+)', m):
+        if not mm.group(1).startswith('Ex'):
+            found.append('external_body struct %s' % mm.group(1))
     for mm in re.finditer(r'uninterp\s+spec\s+fn\s+(\w+)', m):
         found.append('uninterp spec fn %s' % mm.group(1))
     for mm in re.finditer(r'exec_allows_no_decreases_clause\]\s*(?:#\[[^\]]*\]\s*)*(?:pub\s+)?fn\s+(\w+)', m):
@@ -310,7 +313,11 @@ def run_unit(unit, tier='quick', tag='main', solver=None):
     for mt in smt.get('smt-run-module-times', []):
         for fb in mt.get('function-breakdown', []):
             full = fb['function']
-            nm = full.split('::')[-1]
+            nm = None
+            for key, fi in info.items():
+                if full.endswith('::%s::%s' % (fi.get('implname'), fi.get('src_name'))) or \
+                        (fi.get('src_name') == full.split('::')[-1] and 'impl&%' in full and sum(1 for k2, f2 in info.items() if f2.get('src_name') == fi.get('src_name')) == 1):
+                    nm = key
             if full.startswith(fname[:-3] + '::') and nm in info and fb.get('mode:') == 'exec':
                 fres[nm] = dict(success=fb.get('success'), time_ms=fb.get('time'), rlimit=fb.get('rlimit'))
             elif full.startswith(fname[:-3] + '::'):
